@@ -464,4 +464,59 @@ example : (Reporter.run (cfg true) {} (ins.take 7)).started = [tNs] ∧ (Reporte
 
 end Demo
 
+/-! ### at most one error event, and exactly one when the watch really failed -/
+
+theorem handleFatal_flag_iff (s : Reporter.FatalSt) (e : Option String) (h : s.flag = true ↔ s.sent ≠ []) :
+    (Reporter.handleFatal s e).flag = true ↔ (Reporter.handleFatal s e).sent ≠ [] := by
+  cases e with
+  | none => simpa [Reporter.handleFatal] using h
+  | some t =>
+    by_cases hf : s.flag = true
+    · simpa [Reporter.handleFatal, hf] using h
+    · simp [Reporter.handleFatal, hf]
+
+/-- whatever the handlers report, in whatever order: the reporter sends the FIRST error that is not a context error, once;
+context errors are never sent and do not use up the report -/
+theorem fatal_sends_first_real (es : List (Option String)) :
+    (Reporter.fatalSeq es).sent = ((es.filterMap id).head?).toList := by
+  suffices h : ∀ (s : Reporter.FatalSt), (s.flag = true ↔ s.sent ≠ []) → s.sent.length ≤ 1 →
+      (es.foldl Reporter.handleFatal s).sent = if s.flag then s.sent else ((es.filterMap id).head?).toList by
+    simpa [Reporter.fatalSeq] using h {} (by simp) (by simp)
+  induction es with
+  | nil => intro s hfl hl; by_cases hf : s.flag = true <;> simp_all
+  | cons e es ih =>
+    intro s hfl hl
+    cases e with
+    | none => simpa [Reporter.handleFatal] using ih s hfl hl
+    | some t =>
+      by_cases hf : s.flag = true
+      · simpa [Reporter.handleFatal, hf] using ih s hfl hl
+      · have hs : s.sent = [] := by
+          cases hsent : s.sent with
+          | nil => rfl
+          | cons a l => exact absurd (hfl.mpr (by simp [hsent])) hf
+        have := ih { sent := s.sent ++ [t], flag := true } (by simp) (by simp [hs])
+        simpa [Reporter.handleFatal, hf, hs] using this
+
+theorem fatal_at_most_one (es : List (Option String)) : (Reporter.fatalSeq es).sent.length ≤ 1 := by
+  rw [fatal_sends_first_real]; cases (es.filterMap id).head? <;> simp
+
+theorem fatal_reported_iff (es : List (Option String)) :
+    (Reporter.fatalSeq es).sent ≠ [] ↔ ∃ t, some t ∈ es := by
+  rw [fatal_sends_first_real]
+  constructor
+  · intro h
+    cases hh : (es.filterMap id).head? with
+    | none => simp [hh] at h
+    | some t =>
+      have : t ∈ es.filterMap id := List.mem_of_mem_head? (by simpa using hh)
+      exact ⟨t, by simpa using this⟩
+  · rintro ⟨t, ht⟩
+    have hm : t ∈ es.filterMap id := by simpa using ht
+    cases hh : (es.filterMap id) with
+    | nil => simp [hh] at hm
+    | cons a l => simp
+
+example : (Reporter.fatalSeq [none, none, some "forbidden", some "boom", none]).sent = ["forbidden"] := by decide
+
 end CliUtils.Props.C16
